@@ -251,7 +251,7 @@ impl<S: SubCheck> DynSub for S {
     fn replay(&self, case: &Value) -> anyhow::Result<Outcome> {
         let c: S::Case = serde_json::from_value(case.clone())?;
         let mut out = exec_caught(self, &c);
-        for _ in 0..20 {
+        for _ in 0..self.confirm_runs().min(20) {
             if out.fail.is_some() {
                 break;
             }
